@@ -63,7 +63,8 @@ def plan_for(tier: str, seed: int, i: int) -> dict:
         eng = b"\x80\x00" + b"\x00" * zrng.choice([10, 12, 13, 24]) + b"\x01"   # legal engine id with a long run of zero octets
     time0 = zrng.choice([4000, 4000, 4000, 2**31 - 1, 0])                           # incl. the maximum engine time
     return {"prop": ID, "proto": proto, "engine_id": eng, "op": op, "payload": payload, "pwlen": pwlen, "context_name": ctx,
-            "ctx_echo": rng.random() < 0.3, "ctx_other": rng.random() < 0.15, "time0": time0}
+            "ctx_echo": rng.random() < 0.3, "ctx_other": rng.random() < 0.15, "time0": time0,
+            "agent_max_size": zrng.choice([65507, 65507, 484, 1472, 2**31 - 1])}
 
 
 def simplify(plan: dict):
@@ -103,6 +104,7 @@ def execute(plan: dict) -> dict:
             mib[usm + (k, 0)] = ("c32", 10 + k)
     agent = w.add_agent(agent_for(proto, mib, engine_id=plan["engine_id"], boots=7, time0=plan.get("time0", 4000)))
     agent.report_ctx_echo = bool(plan.get("ctx_echo"))
+    agent.announce_max_size = int(plan.get("agent_max_size", 65507))
     if plan.get("ctx_other"):
         agent.report_ctx_other = b"\x80\x00\x1f\x88\x04proxied-context"
     client = w.client(proto, timeout=1, retries=1, context_name=plan["context_name"])
